@@ -16,7 +16,7 @@ PROP = {
             "method/host/path wrong, two wrong, all wrong, exact, path equal to /auth only after decoding or with a query} x methods {GET, PUT, DELETE, "
             "HEAD, OPTIONS, PATCH, post, Post, POSTS, POS, PROBE, TRACE} x hosts {Hysteria, HYSTERIA, hysteria:443, hysteria., ...} x paths "
             "{/auth/, /Auth, //auth, /authx, /a/../auth, ...} x credentials {none, rejected, accepted (non-auth shapes only)} x "
-            "Hysteria-CC-RX/Padding/X-Probe x body 0-48. Non-trivial: custom handler and a request with exactly one field wrong or the exact auth "
+            "Hysteria-CC-RX/Padding/X-Probe x body 0-48; 1/4 of the request steps are concurrent pairs: an exact auth request with rejected credentials is held inside the fake authenticator while a second request (exact shape with rejected/no credentials, or any grid request) is sent on the same connection; both are compared. Non-trivial: custom handler and a request with exactly one field wrong or the exact auth "
             "shape with rejected/no credentials. Distinct = (handler shape, per-step method/wrongness/credentials).",
     "assumptions": ["the exact auth shape (or a path that only decodes to /auth) on the already authenticated connection answers 233 by C01's rule and is not asserted here",
                     "a request that does not complete within 20 s makes the run inconclusive (exit 2)"],
